@@ -626,3 +626,77 @@ Proof.
   - intros [l' [Heq Hin]]. injection Heq as <-. exists (w, N.of_nat (length q)). split; [reflexivity|].
     apply filter_In. split; [exact Hin|]. cbn [snd]. apply N.eqb_refl.
 Qed.
+
+(* ---------- each entry exactly once ---------- *)
+Lemma NoDup_app_disjoint {A} (x y : list A) :
+  NoDup x -> NoDup y -> (forall a, In a x -> ~ In a y) -> NoDup (x ++ y).
+Proof.
+  induction x as [|a t IH]; intros Hx Hy Hd; [exact Hy|].
+  inversion Hx as [|a' t' Ha Ht]; subst. cbn [app]. constructor.
+  - rewrite in_app_iff. intros [H|H]; [exact (Ha H)|exact (Hd a (or_introl eq_refl) H)].
+  - apply IH; [exact Ht|exact Hy|]. intros b Hb. apply Hd. right. exact Hb.
+Qed.
+
+Lemma rows_with_from_nodup k : forall rows i,
+  let l := flat_map (fun ir : N * row => if indexed (snd ir) && bytes_eqb (fst (snd ir)) k then [fst ir] else [])
+                    (number i rows) in
+  NoDup l /\ forall x, In x l -> i <= x.
+Proof.
+  induction rows as [|r t IH]; intros i; cbn [number flat_map]; [split; [constructor|intros x []]|].
+  destruct (IH (i + 1)) as [Hn Hge]. cbn [fst snd].
+  destruct (indexed r && bytes_eqb (fst r) k); cbn [app].
+  - split.
+    + constructor; [|exact Hn]. intros Hin. specialize (Hge i Hin). lia.
+    + intros x [<-|Hx]; [lia|]. specialize (Hge x Hx). lia.
+  - split; [exact Hn|]. intros x Hx. specialize (Hge x Hx). lia.
+Qed.
+
+Lemma rows_with_nodup k rows : NoDup (rows_with k rows).
+Proof. exact (proj1 (rows_with_from_nodup k rows 0)). Qed.
+
+Lemma expand_nodup tbl dic : layout_ok = true -> dic < 16 -> forall es l lo,
+  expand tbl dic es = Some l -> ends_above lo es ->
+  (forall v e ids, In (v, e) es -> entries tbl v = Some ids -> NoDup ids /\ Forall (fun r => r <= WORD_MASK) ids) ->
+  NoDup l.
+Proof.
+  intros HL Hd. induction es as [|[v0 e0] t IH]; intros l lo Hl He Hids; cbn [expand] in Hl.
+  - injection Hl as <-. constructor.
+  - destruct (entries tbl v0) as [ids0|] eqn:Hent; [|discriminate].
+    destruct (stamp_all dic ids0 e0) as [x|] eqn:Hs; [|discriminate].
+    destruct (expand tbl dic t) as [y|] eqn:Hy; [|discriminate]. injection Hl as <-.
+    apply stamp_all_spec in Hs. subst x. cbn [ends_above] in He. destruct He as [_ He].
+    destruct (Hids v0 e0 ids0 (or_introl eq_refl) Hent) as [Hnd Hsmall].
+    apply NoDup_app_disjoint.
+    + clear -HL Hd Hnd Hsmall. induction ids0 as [|r u IHu]; [constructor|].
+      inversion Hnd as [|r' u' Hr Hu]; subst. inversion Hsmall as [|r' u' Hr1 Hu1]; subst. cbn [map]. constructor.
+      * intros Hin. apply in_map_iff in Hin. destruct Hin as [r2 [Heq Hin2]]. injection Heq as Heq.
+        assert (Hr2 : r2 <= WORD_MASK) by (rewrite Forall_forall in Hu1; exact (Hu1 r2 Hin2)).
+        destruct (stamp_inj HL dic r2 dic r Hd Hd Hr2 Hr1 Heq) as [_ ->]. exact (Hr Hin2).
+      * exact (IHu Hu Hu1).
+    + apply (IH y e0 eq_refl He). intros v e ids Hin Hent'. apply (Hids v e ids); [right; exact Hin|exact Hent'].
+    + intros [w e] Hin Hin2. apply in_map_iff in Hin. destruct Hin as [r [Heq _]]. injection Heq as _ <-.
+      apply (expand_in tbl dic t y Hy w e0) in Hin2. destruct Hin2 as [v [ids [r2 [Hin2 _]]]].
+      pose proof (ends_above_all e0 t He v e0 Hin2). lia.
+Qed.
+
+(* certified dictionary: Lexicon::lookup reports no entry twice, for every byte text and offset *)
+Lemma lex_lookup_nodup_of_cert L rows fuel :
+  layout_ok = true -> cert_lex L rows fuel = true ->
+  forall dic text off l, dic < 16 -> bytes text -> lex_lookup L dic text off = Some l -> NoDup l.
+Proof.
+  intros HL Hcert dic text off l Hd Hb Hl. destruct (cert_parts L rows fuel Hcert) as [ks [Hk [Hks _]]].
+  unfold lex_lookup in Hl.
+  apply (expand_nodup _ dic HL Hd _ l (N.of_nat off) Hl (traverse_ends_increase _ text off)).
+  intros v e ids Hin Hent. apply traverse_in in Hin. destruct Hin as [key [Hne [Ha [Hp _]]]].
+  assert (Hbk : bytes key).
+  { destruct Hp as [suffix Hs]. assert (Hb2 : bytes (skipn off text)).
+    { unfold bytes in *. rewrite Forall_forall in *. intros x Hx. apply Hb.
+      rewrite <- (firstn_skipn off text). apply in_or_app. right. exact Hx. }
+    rewrite Hs in Hb2. unfold bytes in Hb2. apply Forall_app in Hb2. exact (proj1 Hb2). }
+  assert (Hin : In (key, v) ks) by (apply (check_trie_sound _ _ _ Hk); split; assumption).
+  destruct (Hks key v Hin) as [_ [He Hf]]. rewrite He in Hent. injection Hent as <-.
+  split; [apply rows_with_nodup|].
+  destruct (layout_facts HL) as [_ [_ [_ [E4 _]]]].
+  rewrite Forall_forall in *. intros r Hr. specialize (Hf r Hr). rewrite <- Hf. rewrite E4, N.land_ones, N.ones_equiv.
+  pose proof (N.mod_upper_bound r (2 ^ 28)). change (2 ^ 28) with 268435456 in *. lia.
+Qed.
